@@ -947,7 +947,12 @@ theorem band_gain_negative_unequal_widths :
 theorem band_gain_negative_inverted :
     bandGainFn (none : Option (List (Int × Rat))) none ⟨8, 8, 8⟩ 1 2 2 0 0 = -1 := by decide +kernel
 
-/-- **C12-K1, witness** (name by convention): a nested band with unequal edge widths has a gain outside [0,1] in the model -/
+/-- **C12-K1, witness** (name by convention): a nested band with unequal edge widths has a gain outside [0,1] in the model. The
+kernels are TOY rational kernels (5 and 3 taps), chosen so that `decide +kernel` evaluates the gain (−121/1024 ≈ −0.118); the figure
+"about −0.16" quoted in known_findings.json is the most negative gain MEASURED on the real code with the Gaussian defaults
+(`lp_gaussian=3, hp_gaussian=2`) and reproduced by the driver's Float model in the correspondence run — it appears in no Lean
+theorem (Gaussian weights involve `exp`, which the exact-arithmetic theorems do not evaluate). What IS proved in general is the range
+[−1, 1] (`band_gain_bounds`) and [0, 1] for nested equal widths (`band_gain_range_nested`). -/
 theorem band_gain_K1_witness :
     ∃ j k l : Int, bandGainFn (some ([(-2, 1/8), (-1, 1/4), (0, 1/4), (1, 1/4), (2, 1/8)] : List (Int × Rat)))
       (some [(-1, 1/16), (0, 7/8), (1, 1/16)]) ⟨8, 8, 8⟩ 3 2 j k l < 0 :=
